@@ -297,6 +297,9 @@ func judge(cfg config, pre []api.Pin, c call, res result, post []api.Pin, log []
 	if cfg.ConsFail != "" {
 		role += "+consensus-fails:" + cfg.ConsFail
 	}
+	if cfg.BlockGetFails {
+		role += "+ipfs-block-get-fails"
+	}
 
 	// which CID does the request address?
 	target := c.Cid
